@@ -444,11 +444,19 @@ func rpcRefreshContract(ctx context.Context, t TransportClient, tp TxPool, signe
 	} else if !existing.HostPublicKey.VerifyHash(contractSigHash, hostRenewal.NewContract.HostSignature) {
 		signer.ReleaseInputs([]types.V2Transaction{renewalTxn})
 		return RPCRefreshContractResult{}, clientErrf("invalid host contract signature")
+	} else if renewalTxn.ID() != hostRenewalTxn.ID() {
+		// check for no funny business
+		signer.ReleaseInputs([]types.V2Transaction{renewalTxn})
+		return RPCRefreshContractResult{}, clientErrf("transaction ID mismatch")
 	}
+	// return the locally built contract with the verified host signatures
+	// rather than the contract object the host sent
+	renewal.HostSignature = hostRenewal.HostSignature
+	renewal.NewContract.HostSignature = hostRenewal.NewContract.HostSignature
 	return RPCRefreshContractResult{
 		Contract: ContractRevision{
 			ID:       params.ContractID.V2RenewalID(),
-			Revision: hostRenewal.NewContract,
+			Revision: renewal.NewContract,
 		},
 		RenewalSet: TransactionSet{
 			Basis:        hostTransactionSetResp.Basis,
@@ -1307,11 +1315,19 @@ func RPCRenewContract(ctx context.Context, t TransportClient, tp TxPool, signer 
 	} else if !existing.HostPublicKey.VerifyHash(contractSigHash, hostRenewal.NewContract.HostSignature) {
 		signer.ReleaseInputs([]types.V2Transaction{renewalTxn})
 		return RPCRenewContractResult{}, clientErrf("invalid host contract signature")
+	} else if renewalTxn.ID() != hostRenewalTxn.ID() {
+		// check for no funny business
+		signer.ReleaseInputs([]types.V2Transaction{renewalTxn})
+		return RPCRenewContractResult{}, clientErrf("transaction ID mismatch")
 	}
+	// return the locally built contract with the verified host signatures
+	// rather than the contract object the host sent
+	renewal.HostSignature = hostRenewal.HostSignature
+	renewal.NewContract.HostSignature = hostRenewal.NewContract.HostSignature
 	return RPCRenewContractResult{
 		Contract: ContractRevision{
 			ID:       params.ContractID.V2RenewalID(),
-			Revision: hostRenewal.NewContract,
+			Revision: renewal.NewContract,
 		},
 		RenewalSet: TransactionSet{
 			Basis:        hostTransactionSetResp.Basis,
